@@ -484,3 +484,26 @@ def _round8(model: Model, rep: Report) -> None:
 
             specs += _re.findall(r"%([0-9.]*[a-zA-Z])", n.left.value)
     r10.check(len(specs) == 4 and all(s_ == ".3f" for s_ in specs), site(b), b.qualname, "four fields, each formatted .3f", why=f"format specs {specs}: a general/short format keeps six significant digits only, so a coordinate of 1234.567 on a large page is written as 1234.57")
+
+
+def _enc_attr_unconditional(model: Model, rep: Report) -> None:
+    """C11-R12: a control character cannot stand in an XML attribute, escaped or not, whatever `stripcontrol` says (that option
+    is about character *content*).  enc_attr removes them under no condition besides the type test of its operand."""
+    from ..util import guard_conjuncts
+
+    r = rep.rule("C11-R12", "GUARD", "XMLConverter.enc_attr removes control characters from every string operand: the CONTROL.sub call stands under the isinstance test only, never under an option", 1)
+    f = model.func("pdfminer.converter.XMLConverter.enc_attr")
+    subs = [c for c in walk_no_nested(f.node) if isinstance(c, ast.Call) and (dotted(c.func) or "").endswith("CONTROL.sub")]
+    if not subs:
+        raise AnchorMissing("enc_attr: CONTROL.sub not found")
+    for c in subs:
+        g = guard_conjuncts(f, c)
+        r.check(all(x.startswith("isinstance(value,") for x in g), site(f, c), f.qualname, f"CONTROL.sub under {sorted(g) or 'no condition'}", why=f"conditions {sorted(g)}: with the option off a font or XObject name holding a control character is written into an attribute as it is and the output is not well-formed XML")
+
+
+_run_r1_r11 = run
+
+
+def run(model: Model, rep: Report) -> None:  # noqa: F811
+    _run_r1_r11(model, rep)
+    _enc_attr_unconditional(model, rep)
